@@ -93,6 +93,11 @@ def run(ctx):
             n, sk = race_events(o, ot)
             ctx.extra["race_reports"] = ctx.extra.get("race_reports", 0) + n
         ctx.validate("OwnershipTrace", ot, keyfn, describe=describe, timeout=3000, require_events=100 if mode not in ("fault", "life") else 1)
+        if mode == "pipe" and not race:
+            # what an exchange on a multiplexed connection returns is the reply to its own query: a recycled channel
+            # or message that still holds another exchange's reply is another request's data
+            ctx.validate("PipelineTrace", t, lambda ev, inv: "%s:%s" % (inv, ev.get("ev", "?")), describe=describe, timeout=1800,
+                         require_events=3000, only=["Inv_C05_Match", "Inv_C05_NoShare", "Unconsumable"])
     # the one-at-a-time transport stepped through behaviours of ReuseStep: a query written from a released buffer
     # (the caller left before the exchange goroutine wrote) is seen by the scripted connection as poison
     import xportfam
